@@ -10,13 +10,14 @@ import (
 
 // inner codec: returns an arbitrary byte string (the "standard encoding") or an error
 type vCodec struct {
-	out    []byte
-	err    error
-	gotV   interface{}
-	calls  int
-	unData []byte
-	unV    interface{}
-	unErr  error
+	out     []byte
+	err     error
+	gotV    interface{}
+	calls   int
+	unData  []byte
+	unV     interface{}
+	unErr   error
+	unknown []byte // unknown fields the decoded message carries
 }
 
 type vErr struct{}
@@ -26,8 +27,25 @@ func (vErr) Error() string { return "inner codec failed" }
 func (c *vCodec) Marshal(v interface{}) ([]byte, error) { c.gotV = v; c.calls++; return c.out, c.err }
 func (c *vCodec) Unmarshal(data []byte, v interface{}) error {
 	c.unData, c.unV = data, v
+	if c.unErr == nil {
+		if m, ok := v.(*vMsg); ok {
+			// what a conforming parser yields: the known field and, as unknown fields, everything the
+			// schema does not describe (fields of the original message the receiver does not know)
+			m.Name, m.XXX_unrecognized = "decoded", c.unknown
+		}
+	}
 	return c.unErr
 }
+
+// vMsg: a message of the legacy generated shape (unknown fields are kept in XXX_unrecognized).
+type vMsg struct {
+	Name             string `protobuf:"bytes,1,opt,name=name,proto3"`
+	XXX_unrecognized []byte `json:"-"`
+}
+
+func (m *vMsg) Reset()         { *m = vMsg{} }
+func (m *vMsg) String() string { return "vMsg" }
+func (*vMsg) ProtoMessage()    {}
 func (c *vCodec) Name() string { return "v" }
 
 // verifCrcOf is CRC32C natively; under the symbolic executor it is the same uninterpreted value
@@ -120,8 +138,27 @@ func VerifH_ck() {
 	if verifBool("unmarshalFails") {
 		inner.unErr = vErr{}
 	}
-	target := &vCodec{}
+	target := &vMsg{}
+	unk := []byte{verifU8("unk0"), verifU8("unk1"), verifU8("unk2")}
+	inner.unknown = unk[:verifChooseLen()]
 	uerr := c.Unmarshal(out, target)
 	verifAssert(uerr == inner.unErr && inner.unV == interface{}(target) && len(inner.unData) == len(out), "C19: Unmarshal does not delegate data, target and result unchanged")
+	if inner.unErr == nil {
+		// decoding with the codec yields exactly the message the underlying codec decoded - including
+		// the fields of the original message that the receiving schema does not know
+		same := target.Name == "decoded" && len(target.XXX_unrecognized) == len(inner.unknown)
+		for i := 0; i < 3; i++ {
+			if i < len(inner.unknown) && i < len(target.XXX_unrecognized) {
+				same = same && target.XXX_unrecognized[i] == unk[i]
+			}
+		}
+		verifAssert(same, "C19: message decoded through the codec differs from what the underlying codec decoded (fields dropped or changed)")
+	}
 	verifObserve("err", verifB2U(err != nil))
+}
+
+func verifChooseLen() int {
+	n := verifInt("nUnknown")
+	verifAssume(n >= 0 && n <= 3)
+	return n
 }
